@@ -131,6 +131,7 @@ def run(ctx):
     ctx.guard(rule_d, ctx, ix)
     ctx.guard(rule_e, ctx, ix)
     ctx.guard(rule_f, ctx, ix)
+    ctx.guard(rule_g, ctx, ix)
 
 
 def rule_ab(ctx, ix):
@@ -314,3 +315,62 @@ def rule_f(ctx, ix):
                     ctx.ob(R, f.construct, 'no loop mutates the collection it iterates', True)
     if n < 15:
         raise AnalysisError('C17.f: only %d looping dataset methods found' % n)
+
+
+def rule_g(ctx, ix):
+    """Exactly one pixel attribute (and one world attribute when coordinates are set) is created per dimension, once."""
+    R = 'C17.g'
+    ctx.describe(R, 'one pixel / world attribute per dimension, created when the first component arrives', floor=6)
+    data = ix.cls('glue.core.data.Data')
+    f = data.resolve_func('add_component')
+    s = f.self_name
+    cs = [c for c in calls_in(f.node) if call_name(c) == '_create_pixel_and_world_components']
+    pm = parent_map(f.node)
+    from ..util import guard_chain
+    ok = len(cs) == 1
+    if ok:
+        tests = [unparse(g.test).replace(' ', '') for g, br in guard_chain(pm, cs[0], f.node) if isinstance(g, ast.If)]
+        ok = tests == ['len(%s._components)==0' % s] and unparse(kwarg_or_pos(cs[0], 'ndim')) == 'component.ndim'
+        store = [st for st in walk_no_nested(f.node) if isinstance(st, ast.Assign) and unparse(st.targets[0]).startswith('%s._components[' % s)]
+        ok = ok and bool(store) and cs[0].lineno < store[0].lineno
+    ctx.ob(R, f.construct, 'coordinate components are created exactly when the first component is added, with its dimensionality', ok,
+           detail='add_component no longer creates the pixel/world components under `len(self._components) == 0` with ndim=component.ndim '
+                  'before storing the first component', where=f.where)
+    for meth, kw, lst in (('_update_pixel_components', None, '_pixel_component_ids'), ('_update_world_components', 'world', '_world_component_ids')):
+        g = data.resolve_func(meth)
+        loops = [n for n in ast.walk(g.node) if isinstance(n, ast.For) and unparse(n.iter) == 'range(ndim)']
+        ok = len(loops) == 1
+        if ok:
+            lp = loops[0]
+            i = unparse(lp.target)
+            cc = [c for c in calls_in(lp) if call_name(c) == 'CoordinateComponent']
+            ok = len(cc) == 1 and len(cc[0].args) >= 2 and unparse(cc[0].args[0]) == g.self_name and unparse(cc[0].args[1]) == i
+            if kw:
+                from ..util import kwarg
+                v = kwarg(cc[0], kw) if cc else None
+                ok = ok and v is not None and unparse(v) == 'True'
+            else:
+                pid = [c for c in calls_in(lp) if call_name(c) == 'PixelComponentID']
+                ok = ok and len(pid) == 1 and unparse(pid[0].args[0]) == i
+        ctx.ob(R, g.construct, 'one coordinate component per axis index, built for that index', ok,
+               detail='%s no longer creates exactly one coordinate component per axis i with axis index i' % g.construct, where=g.where)
+    g = data.resolve_func('_create_pixel_and_world_components')
+    names = [call_name(c) for c in calls_in(g.node)]
+    ctx.ob(R, g.construct, 'both pixel and world components are created', names == ['_update_pixel_components', '_update_world_components'],
+           detail='_create_pixel_and_world_components calls %s' % names, where=g.where)
+    w = data.resolve_func('_update_world_components')
+    ok = any(isinstance(n, ast.If) and unparse(n.test) == '%s.coords' % w.self_name and
+             any(isinstance(x, ast.For) and unparse(x.iter) == 'range(ndim)' for x in n.body) for n in ast.walk(w.node))
+    ctx.ob(R, w.construct + ' coords', 'world components are created only when coordinates are set', ok,
+           detail='_update_world_components no longer creates the world components under `if self.coords`', where=w.where)
+    st = data.resolve('coords')
+    ok = st is not None and st.fset is not None and any(call_name(c) == '_update_world_components' for c in calls_in(st.fset.node))
+    ctx.ob(R, data.construct + '.coords', 'assigning new coordinates rebuilds the world components', ok,
+           detail='the coords setter no longer calls _update_world_components', where=data.where)
+
+
+def kwarg_or_pos(call, name):
+    for k in call.keywords:
+        if k.arg == name:
+            return k.value
+    return call.args[0] if call.args else ast.Constant(value=None)
